@@ -191,7 +191,9 @@ class ParseTheory(CompilerTheory):
         return {'avc'}
 
     def mk_param(self, ex, st, n, sort, sub):
-        if sort in ('PE', 'SP', 'TT', 'TTL', 'CL'):
+        if sort == 'PG':
+            return SV('PG', ex.fresh('(Seq CD)', n))
+        if sort in ('PE', 'SP', 'TT', 'TTL', 'CL', 'CD'):
             e = ex.fresh(sort, n)
             if sub:
                 st.assume('((_ is %s) %s)' % (sub, e))
@@ -201,8 +203,12 @@ class ParseTheory(CompilerTheory):
         return self._sup('mk_param', ex, st, n, sort, sub)
 
     def mk_ret(self, ex, sort, e, st):
-        if sort == 'ClauseAst':
-            return SV('ClauseAst', e)
+        if sort == 'CA':
+            return SV('CA', e)
+        if sort == 'CAOpt':
+            return SV('CAOpt', e, {'isclause': ex.fresh('Bool', 'isclause')})
+        if sort == 'NonClause':
+            return SV('NonClause', None)
         if sort in ('TA', 'TAL'):
             return SV(sort, e)
         if sort == 'Str':
@@ -220,6 +226,10 @@ class ParseTheory(CompilerTheory):
         if base.sort == 'OptTok' and attr == 'text':
             ex.oblige(st, 'safety.op_present', NOT(base.meta['none']), 'safety')
             return [(st, SV('Str', base.e))]
+        if base.sort in ('CA', 'CAOpt') and attr in ('head', 'body'):
+            if base.sort == 'CAOpt':
+                ex.oblige(st, 'safety.attr.%s_of_clause' % attr, base.meta['isclause'], 'safety')
+            return [(st, SV('Body', '(%s %s)' % ('cahead' if attr == 'head' else 'cabody', base.e)))]
         if base.sort == 'TA' and attr == 'name':
             # Functor.name is the object the functor was built from; Atom objects have .value
             ex.oblige(st, 'safety.attr.name_of_functor', '((_ is TAFun) %s)' % base.e, 'safety')
@@ -232,7 +242,7 @@ class ParseTheory(CompilerTheory):
         return self._sup('attr_read', ex, base, attr, st, node)
 
     def attr_write(self, ex, base, attr, v, st, node):
-        if base.sort == 'ClauseAst' and attr == 'ctx':
+        if base.sort == 'CA' and attr == 'ctx':
             return [(st, None)]        # bookkeeping reference to the parse-tree node (used for error positions only)
         if base.sort == 'CSelf' and attr == 'anonymousVariableCounter' and v.sort == 'Int':
             st.comp['avc'] = v.e
@@ -242,17 +252,21 @@ class ParseTheory(CompilerTheory):
     def isinstance(self, ex, v, cls, st, node):
         if v.sort == 'TA' and cls in ('Atom', 'Functor'):
             return '((_ is %s) %s)' % ('TAAtom' if cls == 'Atom' else 'TAFun', v.e)
+        if v.sort == 'CAOpt' and cls == 'Clause':
+            return v.meta['isclause']
+        if v.sort == 'CA' and cls == 'Clause':
+            return 'true'
         if v.sort == 'TAName' and cls == 'Atom':
             return 'true'      # TAFun is only ever built from an Atom (obligation safety.functor_name_is_atom)
         return self._sup('isinstance', ex, v, cls, st, node)
 
     def truthy(self, ex, v):
-        if v.sort in ('OptTok', 'OptTP', 'OptTT', 'OptTTL', 'OptPE'):
+        if v.sort in ('OptTok', 'OptTP', 'OptTT', 'OptTTL', 'OptPE', 'OptCL'):
             return NOT(v.meta['none'])
         return None
 
     def is_none(self, ex, other, st):
-        if other.sort in ('OptSP', 'OptTok', 'OptTP', 'OptTT', 'OptTTL', 'OptPE'):
+        if other.sort in ('OptSP', 'OptTok', 'OptTP', 'OptTT', 'OptTTL', 'OptPE', 'OptCL'):
             return other.meta['none']
         if other.sort in ('TA', 'TAL', 'TT', 'TTL', 'Body', 'Token'):
             return 'false'
@@ -290,7 +304,7 @@ class ParseTheory(CompilerTheory):
         if name == 'len' and so == ['TAL']:
             return [(st, SV('Int', '(talen %s)' % args[0].e))]
         if name == 'Clause' and so == ['Body', 'Body']:
-            return [(st, SV('ClauseAst', None, {'head': args[0], 'body': args[1]}))]
+            return [(st, SV('CA', '(mkCA %s %s)' % (args[0].e, args[1].e)))]
         if name == 'Predicate' and so == ['TA']:
             ex.oblige(st, 'safety.predicate_of_functor', '((_ is TAFun) %s)' % args[0].e, 'safety')
             return [(st, SV('Body', '(predof %s)' % args[0].e))]
@@ -319,6 +333,21 @@ class ParseTheory(CompilerTheory):
                     return [(st, SV('PE', ITE(is_('PENeg'), '(pen %s)' % b, ITE(is_('PEBin'), '(pel %s)' % b, '(pep %s)' % b))))]
                 ex.oblige(st, 'safety.child1_present', is_('PEBin'), 'safety')
                 return [(st, SV('PE', '(per %s)' % b))]
+        if base.sort == 'PG' and meth == 'clauseordirective':
+            if not args:
+                return [(st, SV('CDList', b))]
+            if len(args) == 1 and args[0].sort == 'Int':
+                ex.oblige(st, 'safety.index', AND('(<= 0 %s)' % args[0].e, '(< %s (seq.len %s))' % (args[0].e, b)), 'safety')
+                return [(st, SV('CD', '(seq.nth %s %s)' % (b, args[0].e)))]
+        if base.sort == 'CD' and not args:
+            if meth == 'clause':
+                return [(st, SV('OptCL', '(cdcl %s)' % b, {'none': NOT(is_('CDClause'))}))]
+            if meth == 'directive':
+                ex.oblige(st, 'safety.directive_present', is_('CDDir'), 'safety')
+                return [(st, SV('SP', '(cddir %s)' % b))]
+        if base.sort == 'Body' and meth == 'args' and not args:
+            ex.oblige(st, 'safety.args_of_predicate', OR(is_('BPred'), is_('BCutIf')), 'safety')
+            return [(st, SV('TAL', '(tafargs (predta (pid %s)))' % b))]
         if base.sort == 'CL' and not args:
             if meth == 'simplepredicate':
                 return [(st, SV('SP', '(clhd %s)' % b))]
@@ -404,6 +433,13 @@ class ParseTheory(CompilerTheory):
         if want0 == 'TT' and a.sort == 'OptTT':
             ex.oblige(st, 'safety.child_present', NOT(a.meta['none']), 'safety')
             return SV('TT', a.e)
+        if want0 == 'CL' and a.sort == 'OptCL':
+            ex.oblige(st, 'safety.clause_present', NOT(a.meta['none']), 'safety')
+            return SV('CL', a.e)
+        if want0 == 'CAOpt' and a.sort == 'CA':
+            return SV('CAOpt', a.e, {'isclause': 'true'})
+        if want0 == 'CAOpt' and a.sort == 'NonClause':
+            return SV('CAOpt', ex.fresh('CA', 'noclause'), {'isclause': 'false'})
         if want0 == 'PE' and a.sort == 'OptPE':
             ex.oblige(st, 'safety.body_present', NOT(a.meta['none']), 'safety')
             return SV('PE', a.e)
@@ -453,14 +489,82 @@ class ParseTheory(CompilerTheory):
             outs.append((st.fork().tag('comprehension.raises:' + cls_), Exc(cls_)))
         return outs
 
+    def adjust_assign(self, ex, tgt, v, st):
+        if isinstance(tgt, ast.Name) and v.sort == 'PyDict' and not v.meta.get('items'):
+            # the program dictionary: insertion-ordered keys + key -> clause list (absent keys read as the empty list)
+            return SV('PDict', None, {'keys': '(as seq.empty (Seq PK))', 'vals': '((as const (Array PK (Seq CA))) (as seq.empty (Seq CA)))'})
+        return self._sup('adjust_assign', ex, tgt, v, st)
+
+    def havoc_sv(self, ex, st, v, hint):
+        if v.sort == 'PDict':
+            return SV('PDict', None, {'keys': ex.fresh('(Seq PK)', hint + '_keys'), 'vals': ex.fresh('(Array PK (Seq CA))', hint + '_vals')})
+        if v.sort in ('PG', 'CD', 'CDList', 'CA', 'CAOpt', 'TT', 'TTL', 'SP', 'PE', 'CL'):
+            return v
+        return self._sup('havoc_sv', ex, st, v, hint)
+
+    def st_For(self, ex, s, v, st, k):
+        return self._sup('st_For', ex, s, v, st, k) or False
+
+    def for_enumerate(self, ex, s, st, k):
+        """for i, x in enumerate(<list of parse-tree children>): index-based"""
+        it = s.iter
+        if not (isinstance(it, ast.Call) and isinstance(it.func, ast.Name) and it.func.id == 'enumerate' and len(it.args) == 1
+                and isinstance(s.target, ast.Tuple) and len(s.target.elts) == 2 and all(isinstance(t, ast.Name) for t in s.target.elts)):
+            return False
+        outs = ex.eval(it.args[0], st)
+        if len(outs) != 1 or isinstance(outs[0][1], Exc) or outs[0][1].sort != 'CDList':
+            return False
+        st2, lst = outs[0]
+        n, spec = ex.loop_spec(s)
+        if spec is None:
+            raise OutOfSubset('loop %d of %s has no invariant in the sidecar contract' % (n, ex.qualname), s)
+        s2 = ast.For(target=ast.Name(id='__item', ctx=ast.Store()), iter=s.iter,
+                     body=[ast.Assign(targets=[s.target], value=ast.Name(id='__item', ctx=ast.Load()), lineno=s.lineno)] + s.body, orelse=[])
+        ast.copy_location(s2, s)
+        ast.fix_missing_locations(s2)
+        ex.loop_ord[id(s2)] = n
+        ex._for_range(s2, n, spec, SV('Int', '(seq.len %s)' % lst.e), st2, k,
+                      elem=lambda kx: SV('Tuple', None, {'items': [SV('Int', kx), SV('CD', '(seq.nth %s %s)' % (lst.e, kx))]}))
+        return True
+
     def call_name_ast(self, ex, e, st):
+        # D.setdefault(KEY, []).append(V) on the program dictionary: a new key goes to the end of the key order; V is appended to
+        # the key's list (which is the empty list for a new key)
+        f = e.func
+        if isinstance(f, ast.Attribute) and f.attr == 'append' and len(e.args) == 1 and isinstance(f.value, ast.Call) \
+                and isinstance(f.value.func, ast.Attribute) and f.value.func.attr == 'setdefault' and isinstance(f.value.func.value, ast.Name) \
+                and len(f.value.args) == 2 and ast.unparse(f.value.args[1]) == '[]':
+            dname = f.value.func.value.id
+            d = st.env.get(dname)
+            if d is not None and d.sort == 'PDict':
+                outs = []
+                for st2, key in ex.eval(f.value.args[0], st):
+                    if isinstance(key, Exc):
+                        outs.append((st2, key))
+                        continue
+                    for st3, v in ex.eval(e.args[0], st2):
+                        if isinstance(v, Exc):
+                            outs.append((st3, v))
+                            continue
+                        if key.sort != 'Tuple' or [i.sort for i in key.meta['items']] != ['Str', 'Int'] or v.sort not in ('CA', 'CAOpt'):
+                            raise OutOfSubset('program dictionary update', e)
+                        if v.sort == 'CAOpt':
+                            ex.oblige(st3, 'safety.clause_stored', v.meta['isclause'], 'safety')
+                        kk = '(mkPK %s %s)' % (key.meta['items'][0].e, key.meta['items'][1].e)
+                        cur = st3.env[dname]
+                        keys = ITE('(seq.contains %s (seq.unit %s))' % (cur.meta['keys'], kk), cur.meta['keys'],
+                                   '(seq.++ %s (seq.unit %s))' % (cur.meta['keys'], kk))
+                        vals = '(store %s %s (seq.++ (select %s %s) (seq.unit %s)))' % (cur.meta['vals'], kk, cur.meta['vals'], kk, v.e)
+                        st3.env[dname] = SV('PDict', None, {'keys': keys, 'vals': vals})
+                        outs.append((st3, NONE))
+                return outs
         r = fold_rule(ex, e, st, 'TA', 'TAL', 'tacons', 'tanil', self)
         if r is not None:
             return r
         return self._sup('call_name_ast', ex, e, st)
 
     def smt_sort(self, sort):
-        return {'Label': 'Int', 'Token': 'String'}.get(sort)
+        return {'Label': 'Int', 'Token': 'String', 'PG': '(Seq CD)', 'CAOpt': 'CA', 'NonClause': 'Int'}.get(sort)
 
 
 def _sexp(text):
